@@ -31,7 +31,7 @@ Side == {"A", "B"}
 Peer(s) == IF s = "A" THEN "B" ELSE "A"
 Base == 1000                      \* normalised initial TSN
 MTU == 1200
-MaxNotes == 3000
+MaxNotes == 400
 
 VARIABLES
   l,        \* cursor
